@@ -11,6 +11,7 @@ import ast
 import json
 import os
 import re
+import types
 
 MAX_STEPS = 400000
 
@@ -45,10 +46,11 @@ SAFE_METHODS = {
           'isdecimal', 'isalpha', 'isalnum', 'find', 'index', 'count', 'title', 'isupper', 'islower', 'splitlines', 'encode',
           'casefold', 'rfind', 'rsplit', 'partition', 'rpartition', 'isspace', 'isnumeric', 'zfill', 'capitalize', 'swapcase',
           'removeprefix', 'removesuffix', 'expandtabs', 'center', 'ljust', 'rjust'},
-    list: {'append', 'extend', 'index', 'count', 'copy'},
+    list: {'append', 'extend', 'index', 'count', 'copy', 'remove', 'insert', 'pop', 'sort', 'reverse', 'clear'},
     tuple: {'index', 'count'},
     dict: {'get', 'keys', 'values', 'items'},
-    set: {'add', 'union', 'intersection', 'difference'},
+    types.MappingProxyType: {'get', 'keys', 'values', 'items'},
+    set: {'add', 'union', 'intersection', 'difference', 'discard', 'remove', 'update', 'isdisjoint', 'issubset', 'issuperset'},
     type(re.compile('')): {'match', 'fullmatch', 'search', 'sub', 'findall'},
 }
 
@@ -70,8 +72,14 @@ class Model:
     the interpreter may read and set their attributes, subscript them and call them."""
 
 
+def _is_model(o):
+    return isinstance(o, Model) or (isinstance(o, type) and issubclass(o, Model))
+
+
 class Interp:
     def __init__(self, prog, consts=None):
+        self.extra_names = {}     # bare name -> stand-in value / callable (e.g. a recording print)
+        self.extra_calls = {}     # dotted name -> stand-in callable supplied by a rule (e.g. a base-class method of the stdlib)
         self.prog = prog
         self.steps = 0
         self.consts = consts or {}
@@ -225,6 +233,8 @@ class Interp:
                 m2 = self.prog.modules.get(tm)
                 if m2 is not None and m2.consts.get(tn) is not None:
                     return self.expr(m2.consts[tn], {}, m2)
+            if e.id in self.extra_names:
+                return self.extra_names[e.id]
             if e.id in SAFE_BUILTINS:
                 return SAFE_BUILTINS[e.id]
             raise Unsupported('name %s' % e.id)
@@ -304,7 +314,7 @@ class Interp:
             o = self.expr(e.value, env, mod) if not (isinstance(e.value, ast.Name) and e.value.id == 're') else None
             if isinstance(o, tuple) and len(o) == 2 and o[0] == '#classof' and e.attr == '__name__':
                 return o[1].name
-            if isinstance(o, Model):
+            if _is_model(o):
                 return getattr(o, e.attr)
             if isinstance(o, Obj):
                 if e.attr in o.attrs:
@@ -355,6 +365,28 @@ class Interp:
                 kwargs[k.arg] = self.expr(k.value, env, mod)
         fn = e.func
         full = _dotted(fn)
+        if full in self.extra_calls:
+            return self.extra_calls[full](*args, **kwargs)
+        if isinstance(fn, ast.Name) and fn.id in ('hasattr', 'getattr', 'vars') and fn.id not in env and args:
+            o = args[0]
+            if _is_model(o):
+                return {'hasattr': hasattr, 'getattr': getattr, 'vars': vars}[fn.id](*args)
+            if isinstance(o, Obj):
+                if fn.id == 'vars':
+                    return o.attrs
+                has = args[1] in o.attrs or (o.cls is not None and self.prog.lookup_method(o.cls.qn, args[1]) is not None)
+                if fn.id == 'hasattr':
+                    return has
+                if args[1] in o.attrs:
+                    return o.attrs[args[1]]
+                if has:
+                    return ('#bound', self.prog.lookup_method(o.cls.qn, args[1]), o)
+                if len(args) > 2:
+                    return args[2]
+                raise AttributeError(args[1])
+            if o is None or isinstance(o, (str, int, float, bool, list, tuple, dict, set)):
+                return {'hasattr': hasattr, 'getattr': getattr, 'vars': vars}[fn.id](*args)
+            raise Unsupported('%s on %s' % (fn.id, type(o).__name__))
         if full in SAFE_ATTR_CALLS:
             return SAFE_ATTR_CALLS[full](*args, **kwargs)
         if isinstance(fn, ast.Name) and fn.id == 'isinstance' and len(args) == 2 and 'isinstance' not in env:
@@ -377,7 +409,7 @@ class Interp:
                 o = self.expr(fn.value, env, mod)
             except Unsupported:
                 raise
-            if isinstance(o, Model):
+            if _is_model(o):
                 return getattr(o, fn.attr)(*self._py(args), **{k: self._py1(v) for k, v in kwargs.items()})
             if isinstance(o, Obj):
                 if fn.attr in o.attrs:
@@ -421,7 +453,7 @@ class Interp:
             return self.expr(lam.body, env, mod)
         if callable(f) and f in SAFE_BUILTINS.values():
             return f(*self._py(args), **{k: self._py1(v) for k, v in kwargs.items()})
-        if isinstance(f, Model) or getattr(f, '_pyeval_model', False):
+        if _is_model(f) or getattr(f, '_pyeval_model', False) or any(f is v for v in self.extra_names.values()):
             return f(*args, **kwargs)
         raise Unsupported('call of %r' % (f,))
 
